@@ -27,10 +27,17 @@ fn line(kind: &str, exp: &[u8], eof: bool, chunks: &[Vec<u8>]) -> String {
     format!("auth {kind} {} {} {}", hex(exp), eof as u8, chunks.iter().map(|c| hex_compact(c)).collect::<Vec<_>>().join(" "))
 }
 
+/// m*b + d for every buffer size b, m >= 1, d in {-1, 0, 1}, within the 16-bit length field
+fn boundary_lens(bufs: &[usize]) -> Vec<usize> {
+    let mut v = vec![];
+    for b in bufs { let mut m = 1; while m * b <= 65536 { for d in [-1i64, 0, 1] { let x = (m * b) as i64 + d; if x >= 0 && x <= 65535 { v.push(x as usize); } } m += 1; } }
+    v
+}
+
 impl Group for AuthGroup {
     fn default_cases(&self, tier: &str) -> u64 { if tier == "thorough" { 30_000 } else { 1_000 } }
 
-    fn fixed(&self, _tier: &str) -> Vec<Case> {
+    fn fixed(&self, tier: &str) -> Vec<Case> {
         let exp = sha("correct horse");
         let mut v = vec![];
         let tail = ref_encode(1, 1, &[]); // a SYN right after the preamble
@@ -53,6 +60,14 @@ impl Group for AuthGroup {
         for k in 0..=w.len() {
             v.push(Case { lines: vec![line("conn", &exp, false, &[w[..k].to_vec()])] });
             v.push(Case { lines: vec![line("v", &exp, true, &[w[..k].to_vec()])] });
+        }
+        // declared padding lengths at the boundaries of every plausible buffer size (a chunked skip loop goes wrong there)
+        let mut bl: Vec<usize> = boundary_lens(if tier == "thorough" { &[512, 1000, 1024, 1460, 2048, 4096, 8192, 16384, 32768] } else { &[4096, 8192, 16384, 32768] });
+        for j in 0..16 { for d in [-1i64, 0, 1] { let x = (1i64 << j) + d; if x >= 0 && x <= 65535 { bl.push(x as usize); } } }
+        bl.sort(); bl.dedup();
+        for p in bl {
+            let mut w = exp.clone(); w.extend_from_slice(&(p as u16).to_be_bytes()); w.extend(vec![0u8; p]); w.extend_from_slice(&tail);
+            v.push(Case { lines: vec![line("conn", &exp, false, &[w.clone()])] });
         }
         // declared padding lengths
         for p in [0usize, 1, 2, 255, 256, 257, 65534, 65535] {
@@ -93,7 +108,7 @@ impl Group for AuthGroup {
         let good = rng.chance(2, 3);
         let mut h = if good { exp.clone() } else if rng.chance(1, 2) { sha(&format!("pw{}", rng.below(50) + 100)) } else { rng.bytes(32) };
         if !good && rng.chance(1, 3) { h = exp.clone(); let i = rng.below(32) as usize; h[i] ^= 1 << rng.below(8); }
-        let p = match rng.below(6) { 0 => 0, 1 => 1, 2 => 255, 3 => 256, 4 => *rng.pick(&[65534usize, 65535]), _ => rng.below(600) as usize };
+        let p = match rng.below(7) { 0 => 0, 1 => 1, 2 => 255, 3 => 256, 4 => *rng.pick(&[65534usize, 65535]), 5 => { let bl = boundary_lens(&[512, 1000, 1024, 1460, 2048, 4096, 8192, 16384, 32768]); *rng.pick(&bl) } _ => rng.below(600) as usize };
         let mut w = h.clone();
         w.extend_from_slice(&(p as u16).to_be_bytes());
         let fill = rng.next() as u8;
